@@ -56,6 +56,9 @@ def replay(ctx, idx, beh):
         else:
             rc, pout, dump = vlib.run_plz([vlib.build_plz(), "-p", "-v", "1", "build", "//p:t2"], root, env, 120)
             if dump:
+                print("NOTE: a plz invocation timed out after 120s and was retried; goroutine dump: %s" % dump, flush=True)
+                rc, pout, dump = vlib.run_plz([vlib.build_plz(), "-p", "-v", "1", "build", "//p:t2"], root, env, 120)
+            if dump:
                 raise vlib.Infra("plz build timed out in a cache-stack history: %s\n%s" % (trace, pout[-1500:]))
             builds += 1
             got = {}
